@@ -31,9 +31,9 @@ from .common import dominates
 PROPERTY = 'C09'
 
 META = {
-    'bounds': {'quick': 'step: N=2 parents, m<=2 objectives, offspring designs fresh or repeating a parent; generate: N in {2,3}; '
+    'bounds': {'quick': 'variation contract dim 1 (list/ndarray); step: N=2 parents, m<=2 objectives, offspring designs fresh or repeating a parent; generate: N in {2,3}; '
                         'pop_acceptance: n<=3, m<=2; skeletons N in {2,3}, G in {1,2}, <=1 injected transient failure',
-               'thorough': 'step: N=3,m=1 and N=2,m=2 with constraints; pop_acceptance n<=4; skeletons G<=3, <=2 failures'},
+               'thorough': 'variation contract dim<=2; step: N=3,m=1 and N=2,m=2 with constraints; pop_acceptance n<=4; skeletons G<=3, <=2 failures'},
     'stubs': ['self.generate in the step harness -> N fresh pairwise distinct unevaluated designs (contract proved in part 2)',
               'crossover.cross / mutator.mutate in the generate harness -> arbitrary in-box vectors',
               'random.sample / random.choice -> symbolic indices', 'objective: uninterpreted (parts 1-3); concrete values + symbolic fault placement (part 4)',
